@@ -143,9 +143,10 @@ Definition parse_triplet (s : str) (notation0 : Z) : res op :=
 
 (* ---- printer ---- *)
 
+Definition frac_step2 (p : Z * Z) : Z * Z :=
+  let '(w, d) := p in if crem w 2 =? 0 then (cdiv w 2, d) else (w, d * 2).
 Definition get_op_fraction (w : Z) : Z * Z :=
-  let step2 (p : Z * Z) := let '(w, d) := p in if crem w 2 =? 0 then (cdiv w 2, d) else (w, d * 2) in
-  let '(w3, d3) := step2 (step2 (step2 (w, 1))) in
+  let '(w3, d3) := frac_step2 (frac_step2 (frac_step2 (w, 1))) in
   if crem w3 3 =? 0 then (cdiv w3 3, d3) else (w3, d3 * 3).
 
 Definition append_sign_of (s : str) (n : Z) : str :=
@@ -184,7 +185,8 @@ Definition triplet (a : op) (style0 : Z) : option str :=
   if (lower =? 104) && negb (is_hkl a) then None else
   if negb (lower =? 104) && is_hkl a then None else
   if negb ((lower =? 120) || (lower =? 104) || (lower =? 96)) then None else
-  let '(r0,r1,r2) := rot a in
+  (* a reciprocal-space Op stores the transposed matrix *)
+  let '(r0,r1,r2) := if is_hkl a then transpose (rot a) else rot a in
   let '(t0,t1,t2) := tran a in
   Some (make_triplet_part r0 t0 style ++ [44] ++
         make_triplet_part r1 t1 style ++ [44] ++
